@@ -11,8 +11,8 @@ META = {
                    "feasible path with a 20-line recursive definition of JSON equality; the three keywords are tied to the same oracle, so "
                    "they agree with each other",
     "bounds": {"depth": "<= 2", "containers": "<= 2 entries (3 thorough for flat arrays)", "strings": "<= 2 code points", "integers": "unbounded",
-               "floats": "concrete catalogue next to symbolic ints"},
-    "outside": ["symbolic floats (numeric equality of floats is IEEE ==, decided in C09's encoding for comparisons only)", "depth > 2"],
+               "floats": "not in E1 (CrossHair enumerates integers when an int is compared with a float; measured: 283 paths, no end)"},
+    "outside": ["floats: 1 == 1.0, 2**53 vs 2.0**53, -0.0 (int/float comparison is covered bit-precisely for the ordering keywords in C09's encoding; the == of equal()/unbool() on floats is not encoded)", "depth > 3", "containers > 2 entries"],
     "stubs": ["message formatting"],
     "assumptions": ["CrossHair's models of set/sorted/== on symbolic containers; each reachability witness is replayed in the plain interpreter"],
 }
@@ -23,6 +23,7 @@ KINDS = {
     "arr_scalar": List[Scalar],
     "obj_scalar": Dict[str, Scalar],
     "arr_bi": List[BI],
+    "obj_bi": Dict[str, BI],
     "arr_arr_bi": List[List[BI]],
     "obj_arr_bi": Dict[str, List[BI]],
     "arr_obj_bi": List[Dict[str, BI]],
@@ -31,7 +32,7 @@ KINDS = {
     "bool": bool,
     "str": str,
 }
-FLOATS = [0.0, -0.0, 1.0, 0.5, 2.0 ** 53, 1e308, 5e-324, -1.0, 2.0]
+FLOATS = [0.0, -0.0, 1.0, 0.5, -1.0, 2.0, 4503599627370496.0]
 FILL = ["fff", "ggg", "hhh"]
 
 
@@ -55,9 +56,9 @@ def keyword_ok(draft, kw, a, b, nfill=0):
     raise ValueError(kw)
 
 
-def pair(draft, kw, ka, kb, N=2, nfill=0):
+def pair(draft, kw, ka, kb, N=2, N2=2, L=2, nfill=0):
     def pre(a, b):
-        return small(a, 2, N, 2) and small(b, 2, N, 2)
+        return small(a, L, N, N2) and small(b, L, N, N2)
 
     def body(a, b):
         return keyword_ok(draft, kw, a, b, nfill)
@@ -100,35 +101,122 @@ def triple(draft, kind):
     return Spec([("a", T), ("b", T), ("c", T)], pre, body, tags=["unique", "duplicate"])
 
 
-PAIRS_QUICK = [("scalar", "scalar"), ("arr_scalar", "arr_scalar"), ("obj_scalar", "obj_scalar"), ("arr_arr_bi", "arr_arr_bi"),
-               ("obj_arr_bi", "obj_arr_bi"), ("arr_obj_bi", "arr_obj_bi"), ("arr_scalar", "scalar"), ("obj_scalar", "arr_scalar")]
-PAIRS_MORE = [("obj_obj_bi", "obj_obj_bi"), ("arr_bi", "arr_arr_bi"), ("scalar", "obj_scalar")]
+# ---- concrete shapes with symbolic leaves (cheap: no symbolic containers) ------------------------
+SHAPES = {
+    "s": (1, lambda l: l[0]),
+    "[]": (0, lambda l: []),
+    "{}": (0, lambda l: {}),
+    "[s]": (1, lambda l: [l[0]]),
+    "[s,s]": (2, lambda l: [l[0], l[1]]),
+    "{a:s}": (1, lambda l: {"a": l[0]}),
+    "{b:s}": (1, lambda l: {"b": l[0]}),
+    "{a:s,b:s}": (2, lambda l: {"a": l[0], "b": l[1]}),
+    "{b:s,a:s}": (2, lambda l: {"b": l[1], "a": l[0]}),
+    "[[s]]": (1, lambda l: [[l[0]]]),
+    "[[s],[s]]": (2, lambda l: [[l[0]], [l[1]]]),
+    "[[s,s]]": (2, lambda l: [[l[0], l[1]]]),
+    "[[],s]": (1, lambda l: [[], l[0]]),
+    "[{a:s}]": (1, lambda l: [{"a": l[0]}]),
+    "[{a:s},{a:s}]": (2, lambda l: [{"a": l[0]}, {"a": l[1]}]),
+    "{a:[s]}": (1, lambda l: {"a": [l[0]]}),
+    "{a:[s,s]}": (2, lambda l: {"a": [l[0], l[1]]}),
+    "{a:{b:s}}": (1, lambda l: {"a": {"b": l[0]}}),
+    "{a:{b:s,c:s}}": (2, lambda l: {"a": {"b": l[0], "c": l[1]}}),
+    "{a:{c:s,b:s}}": (2, lambda l: {"a": {"c": l[1], "b": l[0]}}),
+    "[s,[s]]": (2, lambda l: [l[0], [l[1]]]),
+    "[[[s]]]": (1, lambda l: [[[l[0]]]]),
+    "{a:[{b:s}]}": (1, lambda l: {"a": [{"b": l[0]}]}),
+}
+SAME = [("s", "s"), ("[s]", "[s]"), ("[s,s]", "[s,s]"), ("{a:s}", "{a:s}"), ("{a:s,b:s}", "{b:s,a:s}"), ("{a:s,b:s}", "{a:s,b:s}"),
+        ("[[s]]", "[[s]]"), ("[[s],[s]]", "[[s],[s]]"), ("[[s,s]]", "[[s,s]]"), ("[{a:s}]", "[{a:s}]"), ("[{a:s},{a:s}]", "[{a:s},{a:s}]"),
+        ("{a:[s]}", "{a:[s]}"), ("{a:[s,s]}", "{a:[s,s]}"), ("{a:{b:s}}", "{a:{b:s}}"), ("{a:{b:s,c:s}}", "{a:{c:s,b:s}}"),
+        ("[s,[s]]", "[s,[s]]"), ("[[[s]]]", "[[[s]]]"), ("{a:[{b:s}]}", "{a:[{b:s}]}"), ("[[],s]", "[[],s]")]
+NEAR = [("[s]", "[s,s]"), ("{a:s}", "{b:s}"), ("{a:s}", "{a:s,b:s}"), ("[[s]]", "[s]"), ("[[s],[s]]", "[[s,s]]"), ("[]", "{}"), ("[]", "[s]"),
+        ("{}", "{a:s}"), ("[{a:s}]", "{a:[s]}"), ("s", "[s]"), ("[[],s]", "[s,[s]]"), ("{a:{b:s}}", "{a:[s]}"), ("[s,s]", "[[s,s]]")]
+
+
+def shaped(draft, kw, sa, sb, leaf="bi", nfill=0):
+    na, fa = SHAPES[sa]
+    nb, fb = SHAPES[sb]
+    LT = BI if leaf == "bi" else Scalar
+    n = na + nb
+
+    def pre(*ls):
+        return all(small(x, 2, 2) for x in ls)
+
+    def body(*ls):
+        a = fa(list(ls[:na]))
+        b = fb(list(ls[na:]))
+        ok1, tag = keyword_ok(draft, kw, a, b, nfill)
+        ok2, _ = keyword_ok(draft, kw, b, a, nfill)
+        return ok1 and ok2, tag
+
+    return Spec([("l%d" % i, LT) for i in range(n)] or [("unused", bool)], pre if n else (lambda unused: True),
+                body if n else (lambda unused: body()), tags=["equal", "different"] if (sa, sb) in SAME else ["different"])
+
+
+def shaped3(draft, shape, leaf="bi"):
+    """uniqueItems over three elements of one shape"""
+    n1, f = SHAPES[shape]
+    LT = BI if leaf == "bi" else Scalar
+
+    def pre(*ls):
+        return all(small(x, 2, 2) for x in ls)
+
+    def body(*ls):
+        xs = [f(list(ls[i * n1:(i + 1) * n1])) for i in range(3)]
+        got = call(tp.CLS[draft]({"uniqueItems": True}).is_valid, xs)
+        want = not (jeq(xs[0], xs[1]) or jeq(xs[0], xs[2]) or jeq(xs[1], xs[2]))
+        return got == want, ("unique" if got else "duplicate")
+
+    return Spec([("l%d" % i, LT) for i in range(3 * n1)], pre, body, tags=["unique", "duplicate"])
 
 
 def conditions(tier, seed, active):
+    import random
     out = []
     quick = tier == "quick"
+    rng = random.Random(seed)
 
-    def c(cid, factory, params, tags, timeout=600):
-        out.append(dict(id=cid, module=__name__, factory=factory, params=params, timeout=timeout, tags=tags,
-                        witness=tags if (not quick or cid.endswith("/d7") or cid.endswith("/d3")) else []))
+    def c(cid, factory, params, tags, timeout=600, wit=None):
+        w = tags if (wit if wit is not None else (not quick or rng.random() < 0.2)) else []
+        out.append(dict(id=cid, module=__name__, factory=factory, params=params, timeout=timeout, tags=tags, witness=w))
 
     for kw in ("const", "enum1", "enum2", "uniq"):
         drafts = (6, 7) if kw == "const" else (3, 4, 6, 7)
-        if quick:
-            drafts = (7,) if kw == "const" else ((3, 7) if kw in ("enum1", "uniq") else (4,))
         for d in drafts:
-            for ka, kb in PAIRS_QUICK + ([] if quick else PAIRS_MORE):
-                same_family = ka.split("_")[0] == kb.split("_")[0] or "scalar" in (ka, kb)
-                tags = ["equal", "different"] if same_family else ["different"]
-                c("%s/%s~%s/d%d" % (kw, ka, kb, d), "pair", dict(draft=d, kw=kw, ka=ka, kb=kb), tags,
-                  timeout=900 if quick else 2400)
-            for nested in ("top", "arr", "obj"):
-                c("%s/int~float-%s/d%d" % (kw, nested, d), "float_pair", dict(draft=d, kw=kw, nested=nested), ["equal", "different"])
-    for d in ((7,) if quick else (3, 4, 6, 7)):
+            qd = (not quick) or d == {"const": 7, "enum1": 3, "enum2": 4, "uniq": 6}[kw]
+            for sa, sb in SAME:
+                nl = SHAPES[sa][0] + SHAPES[sb][0]
+                if qd or rng.random() < 0.25:
+                    c("%s/%s~%s/bi/d%d" % (kw, sa, sb, d), "shaped", dict(draft=d, kw=kw, sa=sa, sb=sb, leaf="bi"), ["equal", "different"])
+                if nl <= 2 and (qd or rng.random() < 0.25):
+                    c("%s/%s~%s/scalar/d%d" % (kw, sa, sb, d), "shaped", dict(draft=d, kw=kw, sa=sa, sb=sb, leaf="scalar"), ["equal", "different"])
+            for sa, sb in NEAR:
+                if qd or rng.random() < 0.15:
+                    c("%s/%s~%s/bi/d%d" % (kw, sa, sb, d), "shaped", dict(draft=d, kw=kw, sa=sa, sb=sb, leaf="bi"), ["different"])
+            if not quick:
+                names = sorted(SHAPES)
+                for sa in names:
+                    for sb in names:
+                        if (sa, sb) in SAME or (sa, sb) in NEAR or sa >= sb:
+                            continue
+                        c("%s/%s~%s/bi/d%d" % (kw, sa, sb, d), "shaped", dict(draft=d, kw=kw, sa=sa, sb=sb, leaf="bi"), ["different"])
+            # symbolic containers (general, expensive): flat arrays and scalars
+            if qd:
+                c("%s/sym:scalar~scalar/d%d" % (kw, d), "pair", dict(draft=d, kw=kw, ka="scalar", kb="scalar"), ["equal", "different"])
+                c("%s/sym:arr_bi~arr_bi/d%d" % (kw, d), "pair", dict(draft=d, kw=kw, ka="arr_bi", kb="arr_bi"), ["equal", "different"], timeout=900)
+            if not quick:
+                for ka, kb in (("obj_bi", "obj_bi"), ("arr_scalar", "arr_scalar"), ("obj_bi", "arr_bi"), ("arr_arr_bi", "arr_arr_bi")):
+                    extra = dict(N2=1, L=1) if ka == "arr_arr_bi" else dict(L=1)
+                    same_family = ka.split("_")[0] == kb.split("_")[0]
+                    c("%s/sym:%s~%s/d%d" % (kw, ka, kb, d), "pair", dict(draft=d, kw=kw, ka=ka, kb=kb, **extra),
+                      ["equal", "different"] if same_family else ["different"], timeout=3000)
+    for d in ((7, 3) if quick else (3, 4, 6, 7)):
         for nfill in (1, 2):
-            for ka in ("scalar", "arr_bi", "obj_scalar"):
-                c("uniq-far%d/%s/d%d" % (nfill, ka, d), "pair", dict(draft=d, kw="uniq", ka=ka, kb=ka, nfill=nfill), ["equal", "different"])
-        for kind in ("scalar", "arr_bi") + (() if quick else ("arr_scalar", "obj_scalar")):
-            c("uniq3/%s/d%d" % (kind, d), "triple", dict(draft=d, kind=kind), ["unique", "duplicate"], timeout=900 if quick else 2400)
+            for sa, sb in (("s", "s"), ("[s]", "[s]"), ("{a:s}", "{a:s}")):
+                c("uniq-far%d/%s/d%d" % (nfill, sa, d), "shaped", dict(draft=d, kw="uniq", sa=sa, sb=sb, leaf="bi", nfill=nfill), ["equal", "different"])
+        for shape in ("s", "[s]", "{a:s}") + (() if quick else ("[[s]]", "[s,s]")):
+            c("uniq3/%s/bi/d%d" % (shape, d), "shaped3", dict(draft=d, shape=shape, leaf="bi"), ["unique", "duplicate"], timeout=900)
+        c("uniq3/s/scalar/d%d" % d, "shaped3", dict(draft=d, shape="s", leaf="scalar"), ["unique", "duplicate"], timeout=900)
     return out
